@@ -86,6 +86,43 @@ META = {
             "64-bit key collisions among <= 1e5 honest keys have probability < 1e-9 and are ignored",
         ],
     ),
+    "C19": _m(
+        "E", "fault_enumeration", (48, 3000), (480, 3000),
+        "Each run = one plan: 1-6 chains, schedule with 0-3 warm-up and 1-2 posterior epochs (thinning on both), chunk, API script, "
+        "and a fault schedule. F3 sub-batches enumerate the pattern classes {none, warmup_only, posterior_only, dense, single_chain, "
+        "all_chains_one_time, sparse}: a table code[kernel][chain][global time] over the probe kernels' error books is injected "
+        "through 1-3 probe kernels; the F2 sub-batch runs two real RWKernels on a density with NaN regions (code 90). The error "
+        "log, Summary.error_summary, error_df(per_chain=True/False), sample_info, ArviZ conversion and pickle round trip are "
+        "compared with the injected table. Non-trivial = at least one fault fired (or the pattern is 'none'); distinct = distinct "
+        "(chains, pattern, kernels, schedule, chunk, fault totals).",
+        "kernel transitions x chains (MCMC iterations)",
+        "distinct (chains, fault pattern class, kernel count, schedule, chunk, total/posterior fault counts) tuples",
+        E_REAL + ["liesel.goose.Summary / error_df, liesel.experimental.arviz.to_arviz_inference_data, pkl_save/pkl_load, RWKernel + mh_step (F2)"],
+        E_STUB + ["fault table read by the probe kernels (F3)", "NaN-region dict log-density (F2)"],
+        [
+            "warmup_size_per_chain may be the number of warm-up iterations or of stored warm-up samples (the statement does not say which under warm-up thinning)",
+            "relative frequencies of error_df are not checked (denominator under thinning is not fixed by the statement)",
+            "pickle files are written to a per-run scratch directory under $TMPDIR and removed; no torn/short-write faults (no property depends on them)",
+        ],
+    ),
+    "C16": _m(
+        "E", "exploration", (160, 20000), (300, 3000),
+        "Each run = a bundle: 20 op histories on a real EpochManager (append of valid and invalid configs with types 0-4, "
+        "durations -1..30, thinning 0..36, interleaved with has_more()/next(), 0-2 configs handed to the constructor), 60 argument "
+        "tuples for stan_epochs (warm-up 1-5000, init/term/base 1-400, posterior 1-3000, thinnings), and every 8th run one "
+        "EngineBuilder.set_duration schedule sampled end-to-end with a probe kernel (builder chunk). Non-trivial = at least one op "
+        "or tuple; distinct = distinct bundle prefix.",
+        "manager operations + stan_epochs evaluations",
+        "distinct bundles (hash of the first histories / tuples); reach probes count each rejection reason",
+        ["liesel.goose.epoch.EpochManager / EpochConfig / EpochState", "liesel.goose.warmup.stan_epochs", "EngineBuilder.set_duration + Engine (builder-chunk sub-batch)"],
+        ["ProbeKernel (builder-chunk sub-batch)"],
+        [
+            "the stan_epochs clause is a pure function of its arguments: it is seeded generation with an oracle, no schedule or fault is involved (DESIGN.md section 4 C16)",
+            "'exhaustively over small domains' (the property's quantifier) is model checking and is not done; histories are sampled",
+            "admissible = positive durations, warm-up >= 20 and >= init+term+base, thinning_warmup <= min(init, term, base), thinning_posterior | posterior",
+            "last slow window >= twice its predecessor is read as part of the documented doubling pattern (Stan reference manual: the last window is extended)",
+        ],
+    ),
 }
 
 
@@ -100,6 +137,23 @@ NOT_APPLICABLE["C18"] = (
 )
 
 MANIFEST_TEXT = {
+    "C16": dict(
+        technique="deterministic simulation: seeded append/next/has_more op histories with rejected-operation faults on the real EpochManager vs a reference validator; seeded stan_epochs argument sweep",
+        design_ref="DESIGN.md section 4 C16",
+        level_text="Seeded op histories (valid and invalid appends interleaved with next()/has_more(), as Engine.append_epoch between "
+        "sampling calls allows) against a reference validator, with 'a rejected append leaves the manager unchanged' checked through "
+        "all later behaviour; stan_epochs evaluated on thousands of argument tuples; builder chunk observed through successful "
+        "sampling. Sampling, not exhaustive enumeration.",
+        level_note="Trusted: the reference validator as reading of the statement. The stan_epochs clause has no fault/schedule dimension (said in DESIGN.md).",
+    ),
+    "C19": dict(
+        technique="deterministic simulation with fault injection: scheduled error codes per (kernel, chain, iteration) and NaN densities, conservation over log -> summary -> data frame",
+        design_ref="DESIGN.md section 4 C19, section 1.2 F3/F2",
+        level_text="Fault pattern classes are enumerated (none, warm-up only, posterior only, dense, single chain, all chains at one "
+        "time, sparse, NaN-density), schedules/chains/kernels sampled within; the injected table is the ground truth for every count "
+        "the results and summaries report. Sampling within enumerated fault classes, not a proof.",
+        level_note="Trusted: pandas/arviz/pickle; probe kernels and fault tables are stubs; SamplingResults, Summary, ArviZ conversion are real.",
+    ),
     "C10": dict(
         technique="deterministic simulation: twin / perturbed-twin engine runs and in-band PRNG-key recording by probe kernels",
         design_ref="DESIGN.md section 4 C10, section 3 world E",
